@@ -7,7 +7,8 @@ package quic_test
 // InitialPacketSpec. Configurations = built-in fingerprints and the zero spec with
 // one-knob (quick) / two-knob (thorough) deviations; three dials per configuration.
 // Knob families: this file (headers, numbering, tokens, per-datagram builders and plans),
-// c10_planrf_test.go (plan x per-datagram builder), c10_flight_test.go (flight builders).
+// c10_planrf_test.go (plan x per-datagram builder), c10_flight_test.go (flight builders),
+// c10_flightlen_test.go (flight builders that pin a total frame length / PADDING).
 
 import (
 	"bytes"
@@ -165,6 +166,7 @@ var c10Knobs = func() []c10Knob {
 	// appended last so that the indices of the knobs above (used in replay files) stay put
 	k = append(k, c10PlanBuilderKnobs()...)
 	k = append(k, c10FlightKnobs()...)
+	k = append(k, c10FlightLenKnobs()...)
 	return k
 }()
 
@@ -469,10 +471,22 @@ func c10Check(s *quic.QUICSpec, fl sim.Flight, dial int, prevTokens [][]byte, st
 		}
 	}
 	// ---- a flight builder's layout: which CRYPTO ranges in which datagram (c10_flight_test.go)
-	if f := c10FlightCheck(ips.FrameBuilder, dial, len(chBytes), first); f != nil {
+	if f := c10FlightCheck(ips, dial, len(chBytes), first); f != nil {
 		return f, nil, ""
 	}
 	class = fmt.Sprintf("datagrams=%d retrans=%d pnlen=%d tok=%d dcid=%d scid=%d", len(fl.First), len(fl.Retrans), first[0].Pkt.PNLen, len(token), dl, sl)
+	if _, isFlight := ips.FrameBuilder.(quic.QUICFlightFrameBuilder); isFlight {
+		// does the planned flight show PADDING / PING frames at all (vacuity accounting of the
+		// total-frame-length oracle; the counts are drawn per dial)
+		anyZ, anyP := false, false
+		for _, o := range first {
+			_, z := count(o.Frames, 0)
+			p, _ := count(o.Frames, 1)
+			anyZ, anyP = anyZ || z > 0, anyP || p > 0
+		}
+		pads := map[bool]string{false: "-", true: "Z"}[anyZ] + map[bool]string{false: "", true: "p"}[anyP]
+		class += " flight=" + pads
+	}
 	return nil, token, class
 }
 
@@ -610,7 +624,7 @@ func TestVerifC10(t *testing.T) {
 				}
 			}
 		}
-		return cfgs, fmt.Sprintf("7 built-in fingerprints + zero spec x every one-knob deviation (%d knobs: CID lengths 0/1/7/8/20, initial packet numbers 0..2^64-1, PN length lists, tokens, frame builders, per-datagram plans, the plan x random-builder lattice of c10_planrf_test.go (CryptoLength x PacketSize x builder Length around the plan's CRYPTO frame x CRYPTO frame count x builder kind), the flight-builder lattice of c10_flight_test.go (QUICFlightFrames / QUICRandomFlightFrames / custom QUICFlightFrameBuilder x 3..4 datagrams x position of the big datagram x InitialPackets none / one repeating entry / two / one per datagram x size of the big datagram across the 1200 / 1280 / packet-buffer / BuildFlight-budget bounds), UDP minimum sizes, ClientHello sizes; every frame builder / packet plan x every ClientHello size; in thorough every pair except contradictory ones: two knobs of one layout family, a 300-byte token with an exact packet plan) x 3 dials with different seeds; silent peer, first flight + PTO retransmissions within 1.5 s", len(c10Knobs))
+		return cfgs, fmt.Sprintf("7 built-in fingerprints + zero spec x every one-knob deviation (%d knobs: CID lengths 0/1/7/8/20, initial packet numbers 0..2^64-1, PN length lists, tokens, frame builders, per-datagram plans, the plan x random-builder lattice of c10_planrf_test.go (CryptoLength x PacketSize x builder Length around the plan's CRYPTO frame x CRYPTO frame count x builder kind), the flight-builder lattice of c10_flight_test.go (QUICFlightFrames / QUICRandomFlightFrames / custom QUICFlightFrameBuilder x 3..4 datagrams x position of the big datagram x InitialPackets none / one repeating entry / two / one per datagram x size of the big datagram across the 1200 / 1280 / packet-buffer / BuildFlight-budget bounds), the flight total-frame-length lattice of c10_flightlen_test.go (QUICRandomFlightFrames with Frames.Length walked across the datagram's CRYPTO + PING bytes x PING bounds x exact / drawn framing x 1 / 3 datagrams x InitialPackets none / one repeating entry; fixed frame lists with PADDING), UDP minimum sizes, ClientHello sizes; every frame builder / packet plan x every ClientHello size; in thorough every pair except contradictory ones: two knobs of one layout family, a 300-byte token with an exact packet plan) x 3 dials with different seeds; silent peer, first flight + PTO retransmissions within 1.5 s", len(c10Knobs))
 	}
 	part := explore.Part{
 		Name: "flight-vs-spec",
